@@ -344,7 +344,9 @@ def boundary_cases(rng, thorough):
     # a line that never ends: the reader must give up after max_line bytes, not buffer the rest
     for bs in (16, 4096, 65536):
         for pre in (b"", b"OPTIONS * RTSP/1.0\r\n", b"OPTIONS * RTSP/1.0\r\nX: ", b"RTSP/1.0 200 OK\r\nCSeq: 1\r\nY"):
-            fill = rng.choice(b"Aa :$")
+            # '$' at the very start of the stream would be frames on an unknown channel, which are skipped one
+            # by one, not a line
+            fill = rng.choice(b"Aa :$" if pre else b"Aa :")
             out.append(raw(0, std, rng, pre + bytes([fill]) * (MAX_LINE + 2), extra=[fill, 48 << 20], bufsize=bs,
                            chunks=[4096]))
     # absurd Content-Length: refused before anything is allocated or read
